@@ -79,4 +79,10 @@ def interpManifold (d2 : α) (a b : List α) (l : α) : Option (List α) :=
   if Prim.sqrt d2 ≤ 0.0 then some (normalize i)
   else if Prim.sqrt (norm2 i) / Prim.sqrt d2 < 1.0e-6 then none else some (normalize i)
 
+/-- quaternions: `q` and `-q` are the same rotation; the interpolation goes to the representative of `b` closest to `a` -/
+def matchSign (a b : List α) : List α := if dot a b < 0.0 then b.map (fun x => -1.0 * x) else b
+
+def interpQ (pi : α) (a b : List α) (l : α) : Option (List α) :=
+  interpManifold (dist2Q pi a b) a (matchSign a b) l
+
 end Cv
